@@ -263,7 +263,7 @@ theorem keepraw_raw_is_consumed {α : Type} (t : Codec α) (ht : Suffix t.dec) (
     obtain ⟨rfl, rfl⟩ := h
     obtain ⟨c, hc⟩ := ht bs a rest hd
     subst hc
-    simp [span_of_suffix]
+    simp [KeepRaw.raw, Cow.bytes, span_of_suffix]
 
 /-- **`KeepRaw` preserves every accepted input**, whatever the inner codec is -/
 theorem keepraw_pres {α : Type} (t : Codec α) (ht : Consumes t.dec) : Pres (cKeepRaw t) := by
@@ -277,12 +277,12 @@ theorem keepraw_pres {α : Type} (t : Codec α) (ht : Consumes t.dec) : Pres (cK
     obtain ⟨c, hne, hc⟩ := ht bs a rest hd
     subst hc
     have : c.isEmpty = false := by cases c <;> simp at hne ⊢
-    simp [cKeepRaw, KeepRaw.enc, span_of_suffix, this]
+    simp [cKeepRaw, KeepRaw.enc, KeepRaw.raw, Cow.bytes, span_of_suffix, this]
 
 /-- **mutation re-encodes from the new content** -/
 theorem keepraw_mut {α : Type} (t : Codec α) (k : KeepRaw α) (f : α → α) :
     KeepRaw.enc t (k.derefMut f) = t.enc (f k.inner) := by
-  simp [KeepRaw.enc, KeepRaw.derefMut, KeepRaw.clearRaw]
+  simp [KeepRaw.enc, KeepRaw.derefMut, KeepRaw.clearRaw, KeepRaw.raw, Cow.bytes]
 
 /-- a wrapper that is only read re-encodes its raw bytes -/
 theorem keepraw_unmutated {α : Type} (t : Codec α) (k : KeepRaw α) (h : k.raw ≠ []) : KeepRaw.enc t k = k.raw := by
@@ -292,8 +292,8 @@ theorem keepraw_unmutated {α : Type} (t : Codec α) (k : KeepRaw α) (h : k.raw
 /-- round trip of a `KeepRaw` built with `From<T>` (no raw bytes): the content comes back, the raw
     bytes are now the encoding -/
 theorem keepraw_rt_from {α : Type} (t : Codec α) (wf : α → Prop) (ht : RTon t wf) (a : α) (ha : wf a) (r : Bytes) :
-    KeepRaw.dec t (KeepRaw.enc t (KeepRaw.from a) ++ r) = .ok ⟨t.enc a, a⟩ r := by
-  simp [KeepRaw.dec, KeepRaw.enc, KeepRaw.from, ht a ha r, span_of_suffix]
+    KeepRaw.dec t (KeepRaw.enc t (KeepRaw.from a) ++ r) = .ok ⟨.borrowed (t.enc a), a⟩ r := by
+  simp [KeepRaw.dec, KeepRaw.enc, KeepRaw.from, KeepRaw.raw, Cow.bytes, ht a ha r, span_of_suffix]
 
 /-- round trip of a decoded `KeepRaw`: it comes back unchanged, raw bytes included -/
 theorem keepraw_rt_decoded {α : Type} (t : Codec α) (ht : Consumes t.dec) (bs : Bytes) (k : KeepRaw α) (r : Bytes)
@@ -305,8 +305,60 @@ theorem keepraw_rt_decoded {α : Type} (t : Codec α) (ht : Consumes t.dec) (bs 
     have := hbs.symm.trans hc
     exact List.append_cancel_right this
   have hne' : k.raw ≠ [] := by rw [hraw]; exact hne
+  have hcow : k.cow = .borrowed k.raw := by
+    simp only [KeepRaw.dec] at h
+    cases hd' : t.dec bs with
+    | err e => simp [hd'] at h
+    | ok a rest => simp only [hd', Res.ok.injEq] at h; obtain ⟨rfl, _⟩ := h; rfl
   rw [keepraw_unmutated t k hne']
-  simp [KeepRaw.dec, hind, span_of_suffix]
+  simp only [KeepRaw.dec, hind, span_of_suffix]
+  congr 1
+  cases k with
+  | mk cow inner => simp only at hcow ⊢; rw [← hcow]
+
+/-! ### every history of the public operations -/
+
+theorem kop_noninvalidating {α : Type} (o : KOp α) (k : KeepRaw α) (h : o.invalidates = false) :
+    (o.apply k).raw = k.raw ∧ (o.apply k).inner = k.inner := by
+  cases o <;> simp [KOp.invalidates] at h <;>
+    simp [KOp.apply, KeepRaw.toOwned, KeepRaw.clone, KeepRaw.raw, Cow.bytes]
+
+theorem kop_invalidating {α : Type} (o : KOp α) (k : KeepRaw α) (h : o.invalidates = true) : (o.apply k).raw = [] := by
+  cases o <;> simp [KOp.invalidates] at h <;>
+    simp [KOp.apply, KeepRaw.clearRaw, KeepRaw.derefMut, KeepRaw.raw, Cow.bytes]
+
+theorem kop_keeps_empty {α : Type} (o : KOp α) (k : KeepRaw α) (h : k.raw = []) : (o.apply k).raw = [] := by
+  cases ho : o.invalidates
+  · rw [(kop_noninvalidating o k ho).1, h]
+  · exact kop_invalidating o k ho
+
+/-- once any operation of a history has invalidated the raw bytes they stay empty, whatever follows
+    (`to_owned`, `clone`, further mutations …) -/
+theorem keepraw_run_invalidated {α : Type} (ops : List (KOp α)) (k : KeepRaw α)
+    (h : k.raw = [] ∨ ops.any KOp.invalidates = true) : (k.run ops).raw = [] := by
+  induction ops generalizing k with
+  | nil => rcases h with h | h; exact h; simp at h
+  | cons o os ih =>
+    simp only [KeepRaw.run, List.foldl_cons]
+    apply ih
+    rcases h with h | h
+    · exact Or.inl (kop_keeps_empty o k h)
+    · simp only [List.any_cons, Bool.or_eq_true] at h
+      rcases h with h | h
+      · exact Or.inl (kop_invalidating o k h)
+      · exact Or.inr h
+
+/-- a history without `deref_mut` / `clear_raw` changes neither the raw bytes nor the content -/
+theorem keepraw_run_untouched {α : Type} (ops : List (KOp α)) (k : KeepRaw α)
+    (h : ops.all (fun o => !o.invalidates) = true) : (k.run ops).raw = k.raw ∧ (k.run ops).inner = k.inner := by
+  induction ops generalizing k with
+  | nil => exact ⟨rfl, rfl⟩
+  | cons o os ih =>
+    simp only [List.all_cons, Bool.and_eq_true, Bool.not_eq_true'] at h
+    obtain ⟨h1, h2⟩ := kop_noninvalidating o k h.1
+    obtain ⟨h3, h4⟩ := ih (o.apply k) (by simpa using h.2)
+    simp only [KeepRaw.run, List.foldl_cons] at h3 h4 ⊢
+    exact ⟨h3.trans h1, h4.trans h2⟩
 
 /-! ## `skip()` and `AnyCbor` -/
 
